@@ -767,7 +767,9 @@ def rules(tier):
             # C01-da: the saved queue position written with 15 significant digits no longer round-trips
             ('C01.R17', _shared_rule('plumbing', 'float_text_exact')),
             # mutation sweep: next() returning None with one item left
-            ('C01.R18', _shared_rule('plumbing', 'generator_glue'))]
+            ('C01.R18', _shared_rule('plumbing', 'generator_glue')),
+            # C01-ea: is_parent_around builds the candidate parent on the child's own list - the restored node keeps its probability but not its tree
+            ('C01.R19', _shared_rule('c02', 'r4_copy_before_mutate'))]
 
 
 META = {
